@@ -41,13 +41,27 @@ def _k5(ctx: Context) -> None:
     def is_struct(t) -> bool:
         return t[0] == "call" and t[1][0] == "attr" and t[1][2] == "get" and t[2] == (("const", "struct"),)
 
-    single = arrays = 0
+    counts = {"single": 0, "arrays": 0}
     for n in cfg.nodes:
         if n.kind != "return" or not n.exprs or n.copy_of:
             continue
-        t = strip_sites(T.of(cfg, n, n.exprs[0]))
+        t0 = strip_sites(T.of(cfg, n, n.exprs[0]))
+
+        def _alts(t_):
+            return [a for x in t_[1] for a in _alts(x)] if t_[0] == "phi" else [t_]
+
+        for t in _alts(t0):  # one return of a local that holds either form (a helper's two returns): each form judged
+            _k5_one(ck, ctx, f, n, t, is_struct, payload, counts)
+    single, arrays = counts["single"], counts["arrays"]
+    ck.check("C16.K5", single >= 1 and arrays >= 1, "Characteristic.value has both forms (single message, bare array)", f"{ctx.fkey(f)}:both-forms",
+             f"Characteristic.value: single-message returns {single}, array returns {arrays}", f.loc())
+
+
+def _k5_one(ck, ctx, f, n, t, is_struct, payload, counts) -> None:
+    single = arrays = 0
+    if True:
         if not contains(t, is_struct):
-            continue
+            return
         ok_single = t[0] == "call" and t[1][0] == "attr" and t[1][2] == "decode" and is_struct(t[1][1]) and t[2] == (payload,) and not t[3]
         ok_array = False
         if t[0] == "comp" and t[1] == "ListComp" and len(t[3]) == 1:
@@ -61,8 +75,8 @@ def _k5(ctx: Context) -> None:
                  f"{ctx.fkey(f)}:struct-result:{'single' if not t[0] == 'comp' else 'array'}",
                  f"Characteristic.value returns {show(t, 160)} for a struct-valued characteristic: the message is not simply the decode of the whole "
                  "stored payload (an all-unset message is zero bytes and must still decode to the equal message)", ctx.loc(f, n))
-    ck.check("C16.K5", single >= 1 and arrays >= 1, "Characteristic.value has both forms (single message, bare array)", f"{ctx.fkey(f)}:both-forms",
-             f"Characteristic.value: single-message returns {single}, array returns {arrays}", f.loc())
+    counts["single"] += single
+    counts["arrays"] += arrays
 
 
 TRUSTED = ["dataclasses.fields() returns fields in declaration order", "struct.pack/unpack and int.from_bytes/to_bytes"]
@@ -280,7 +294,7 @@ def _k4(ctx: Context, ss, ser, des) -> None:
             if n.kind != "test" or not any(fr[0] == "loop" for fr in n.frames) and not isinstance(n.ast, ast.While):
                 continue
             cp = compare_parts(n.exprs[0])
-            if not (cp and cp[1] == "Gt" and isinstance(cp[0], ast.Call) and isinstance(cp[0].func, ast.Name) and cp[0].func.id == "len" and len(cp[0].args) == 1
+            if not (cp and cp[1] in ("Gt", "GtE") and isinstance(cp[0], ast.Call) and isinstance(cp[0].func, ast.Name) and cp[0].func.id == "len" and len(cp[0].args) == 1
                     and isinstance(cp[0].args[0], ast.Name)):
                 continue
             v, K_test = cp[0].args[0].id, ctx.const(ef, cp[2], None)
@@ -293,6 +307,28 @@ def _k4(ctx: Context, ss, ser, des) -> None:
                 K_slice, K_step = next(iter(takes)), next(iter(advs))
                 ck.check("C16.K4", K_test == K_step, "encoder: a fragment is split off while more than the fragment size is left", f"{ctx.fkey(ef)}:chunk-loop-test",
                          f"TLVStruct.encode splits fragments of {K_step} bytes off while more than {K_test} bytes are left", ctx.loc(ef, n))
+                if cp[1] == "GtE":
+                    # `while len(v) >= K`: for a length that is an exact multiple of K nothing is left after the loop - the item
+                    # written behind the loop must then be skipped, or the value gets a trailing zero-length fragment
+                    tails = [m for m in ecfg.nodes for c_ in ctx.calls(m) if isinstance(c_.func, ast.Attribute) and c_.func.attr in ("append", "extend") and c_.args
+                             and isinstance(c_.args[0], ast.Call) and isinstance(c_.args[0].func, ast.Name) and c_.args[0].func.id == "len"
+                             and _u(c_.args[0].args[0]) == v and not any(fr[0] == "loop" and fr[2] == "body" and fr[1] is n.ast for fr in m.frames)]
+                    nonempty = []
+                    for tn in ecfg.nodes:
+                        if tn.kind == "test":
+                            if isinstance(tn.exprs[0], ast.Name) and tn.exprs[0].id == v:
+                                nonempty += ecfg.out_edges(tn, ("T",))
+                            c2 = compare_parts(tn.exprs[0])
+                            if c2 and isinstance(c2[0], ast.Call) and isinstance(c2[0].func, ast.Name) and c2[0].func.id == "len" and _u(c2[0].args[0]) == v and tn is not n:
+                                if c2[1] == "Gt" and ctx.const(ef, c2[2], None) == 0 or c2[1] == "NotEq" and ctx.const(ef, c2[2], None) == 0 or c2[1] == "GtE" and ctx.const(ef, c2[2], None) == 1:
+                                    nonempty += ecfg.out_edges(tn, ("T",))
+                    for tl in tails:
+                        wit = None
+                        for e_ in ecfg.out_edges(n, ("F",)):
+                            wit = wit or ([] if e_[1] == tl.id else ecfg.find_path(e_[1], tl.id, avoid_edges=nonempty))
+                        ck.check("C16.K4", wit is None, "encoder: after `while len(v) >= K` the last item is written only when something is left", f"{ctx.fkey(ef)}:trailing-empty-fragment",
+                                 f"TLVStruct.encode splits fragments off while len >= {K_test} and then writes the rest unconditionally: a value whose length is an exact multiple of "
+                                 f"{K_test} gets a trailing zero-length item (not the canonical encoding; the value is no longer `every fragment but the last is full`)", ctx.loc(ef, tl))
     if K_step is None and K_slice is None:
         ck.unknown("C16.K4", "TLVStruct.encode: the fragmentation loop was not recognised (neither range(0, len, K) nor while len > K): fragment size not decided", ef.loc())
     else:
